@@ -25,6 +25,10 @@ SITES = {
     'marker-line':          "x = 1\ny = x + 2\nz = y(k-1)\nx(0) = 3\n# Exogenous vars {C}\ng = [1, 2]\nMaxTime = 3",
     'exogenous-line':       "x = 1\ny = x + 2\nz = y(k-1)\nx(0) = 3\n# Exogenous vars\ng = [1, 2] #{C}\nMaxTime = 3",
     'parameter-line':       "x = 1\ny = x + 2\nz = y(k-1)\nx(0) = 3\n# Exogenous vars\ng = [1, 2]\nMaxTime = 3 #{C}",
+    # a commented line followed by an empty / blank line, with lines of every class still to come
+    'equation-then-empty':  "x = 1 #{C}\n\ny = x + 2\nz = y(k-1)\nx(0) = 3\n# Exogenous vars\ng = [1, 2]\nMaxTime = 3",
+    'parameter-then-blank': "x = 1\nMaxTime = 3 # {C}\n   \ny = x + 2\nz = y(k-1)\nx(0) = 3\n# Exogenous vars\ng = [1, 2]",
+    'lag-then-empty-twice': "x = 1\nz = y(k-1)  #{C}\n\n\ny = x + 2\nx(0) = 3\n# Exogenous vars\ng = [1, 2]\nMaxTime = 3",
     'comment-only-line':    "x = 1\n#{C}\ny = x + 2\nz = y(k-1)\nx(0) = 3\n# Exogenous vars\ng = [1, 2]\nMaxTime = 3",
 }
 
